@@ -89,6 +89,7 @@ type Call struct {
 	Mutating bool
 	Ctx      any // filled by the OnCall hook (e.g. live policy pointer)
 	Epoch    int
+	Injected string // kind of the fault rule that fired on this call ("" = none; stalls are not recorded here)
 }
 
 // Fault rule: fires on the Nth matching call (1-based), Count times (0 = once).
@@ -121,6 +122,7 @@ type FS struct {
 	CrashTorn  bool
 	crashRng   *simrt.Rand
 	completed  int
+	injected   int // number of error/short fault rules that have fired
 	Crashed    bool
 	wsync      byte // released by mutating calls, acquired by every call
 	rsync      byte // release-merged by read-only calls, acquired by mutating calls
@@ -204,6 +206,15 @@ func (f *FS) AddFault(r Fault) {
 	f.hunlock()
 }
 
+// Injected returns how many error/short fault rules have fired so far.
+//
+//go:norace
+func (f *FS) Injected() int {
+	f.hlock()
+	defer f.hunlock()
+	return f.injected
+}
+
 // ClearFaults removes all fault rules.
 //
 //go:norace
@@ -262,6 +273,10 @@ func (v *View) begin(c *Call) (*Call, *Fault) {
 			}
 		}
 	}
+	if hit != nil && hit.Kind != "stall" {
+		f.injected++
+		c.Injected = hit.Kind
+	}
 	hook := f.OnCall
 	f.unlock()
 	if hook != nil {
@@ -284,9 +299,15 @@ func (v *View) begin(c *Call) (*Call, *Fault) {
 	return c, hit
 }
 
+// TraceCalls makes every backend call an event of the run's log (debugging aid for trace replays only).
+var TraceCalls bool
+
 //go:norace
 func (v *View) end(c *Call, err error) error {
 	f := v.fs
+	if TraceCalls {
+		simrt.Event("fs %s %s %s off=%d len=%d n=%d inj=%s -> %v", c.Op, c.Path, c.Path2, c.Off, c.Len, c.N, c.Injected, err)
+	}
 	if c.Mutating {
 		simrt.RaceRelease(unsafe.Pointer(&f.wsync))
 	} else {
